@@ -94,7 +94,9 @@ def check(lp, J, logs, k, get_type, prefix="C02", sampled=False, tracer_residue=
     """
     V = []
     gt = lambda v: get_type(v, k)  # noqa: E731
-    conflict_pred = traced_pred if traced_pred is not None else admitted
+    # twin modules (equal-but-not-identical code objects) are judged like any other function unless the
+    # caller names a way in which the tree under test can confuse them (C17: the filter's verdict cache)
+    conflict_pred = traced_pred if traced_pred is not None else NO_CONFLICT
     calls, order = parse_journal(J)
     evaluated = 0
     # --- map logs to fixture functions
@@ -170,6 +172,13 @@ def twin_related(lp, fid):
     if "twin_of" in f or "src_fid" in f:
         return True
     return any(g.get("twin_of") == fid or (g.get("src_fid") == fid and g is not f) for g in lp.funcs.values())
+
+
+def NO_CONFLICT(fid, partner):
+    return False
+
+
+NO_CONFLICT.takes_pair = True
 
 
 def twin_partner(lp, fid):
